@@ -6,8 +6,10 @@ CloneModes ==
   {mm \in [cmd : {"clone"}, out : {"absent", "regular", "dangling", "bd_small", "bd_tail", "bd_equal", "bd_large"}, force : BOOLEAN, inplace : BOOLEAN,
            arch : {"valid", "invalid"}, pin : {"none", "match", "mismatch"}, nseeds : {0, 2}, stdin_seed : BOOLEAN,
            verify_out : BOOLEAN, transport : {"local", "http"}, empty_input : {FALSE}, stale_tmp : {"none"},
-           late : {"none", "bad_chunk"}, race : {"none", "appears"}] :
+           late : {"none", "bad_chunk"}, race : {"none", "appears"}, seed_out : BOOLEAN] :
      /\ (mm.arch = "invalid" => mm.pin = "none")
+     \* the output itself named as a seed (spelled exactly like the output): naming it as a seed is not asking for an in-place update - only the refusal is a mode here
+     /\ (mm.seed_out => mm.out = "regular" /\ ~mm.force /\ ~mm.inplace /\ mm.arch = "valid" /\ mm.pin # "mismatch" /\ mm.race = "none" /\ mm.late = "none")
      \* a dangling link is only ever refused here (what --force-create / --seed-output do through a link is the file system's business)
      /\ (mm.out = "dangling" => ~mm.force /\ ~mm.inplace /\ mm.nseeds = 0 /\ ~mm.stdin_seed /\ ~mm.verify_out)
      \* a damaged chunk: nothing else may provide it (no seeds; the runner gives an in-place output unrelated content), any output kind that proceeds
@@ -19,7 +21,7 @@ CloneModes ==
 CompressModes ==
   {mm \in [cmd : {"compress"}, out : {"absent", "regular", "dangling"}, force : BOOLEAN, inplace : {FALSE}, arch : {"valid"}, pin : {"none"}, nseeds : {0},
            stdin_seed : BOOLEAN, verify_out : {FALSE}, transport : {"local"}, empty_input : BOOLEAN, stale_tmp : {"none", "longer", "shorter"},
-           late : {"none"}, race : {"none"}] :
+           late : {"none"}, race : {"none"}, seed_out : {FALSE}] :
      \* compress --force-create through a dangling link creates the link's target: the file system's business, not a mode here
      mm.out = "dangling" => ~mm.force}
 Modes == CloneModes \cup CompressModes
